@@ -195,6 +195,9 @@ def mode_body(ctx, case):
             nj, mj = noll.noll_table(j)
             nn, mm = int(nj[j]), int(mj[j])
             zr = z.zernike_noll(j, N, rot)
+            # the documented signatures: (j, N, rot) positionally is (j, N, rot=rot), and the Noll entry is the (n, m) entry
+            ctx.equal(z.zernike_noll(j, N, rot=rot), zr, "zernike_noll(j, N, rot) given positionally differs from zernike_noll(j, N, rot=rot)")
+            ctx.equal(zr, z.zernike_nm(nn, mm, N, rot), "zernike_noll(j, N, rot) differs from zernike_nm(n, m, N, rot) of Noll's (n, m)")
             if mm == 0:
                 ctx.close(zr, noll.mode(nn, 0, N)[0], 1e-10, "rotation leaves m=0 modes unchanged", scale=math.sqrt(nn + 1) * 2 ** max(0, nn - 2))
             else:
@@ -205,10 +208,15 @@ def mode_body(ctx, case):
                 ab, *_ = np.linalg.lstsq(Amat, zr.ravel(), rcond=None)
                 ctx.close(Amat @ ab, zr.ravel(), 1e-9, "rotated mode lies in the span of its (cos, sin) pair", scale=math.sqrt(2 * (nn + 1)) * 2 ** max(0, nn - 2))
                 ctx.close(float(ab[0] ** 2 + ab[1] ** 2), 1.0, 1e-8, "rotated mode is a unit combination of its pair", scale=1.0)
+                # ... by the requested angle (as a rotation of the pattern, m rot, or of the azimuthal phase, rot; either sense)
+                own = ab[0] if mm > 0 else ab[1]
+                ctx.require(min(abs(own - math.cos(rot)), abs(own - math.cos(abs(mm) * rot))) <= 1e-7, "zernike_noll(%d, %d, rot=%r): the mode keeps a fraction %r of itself, expected cos(rot) = %r or cos(m rot) = %r - the requested rotation was not applied" % (j, N, rot, float(own), math.cos(rot), math.cos(abs(mm) * rot)))
     # phase from coefficients
     co = case["coeffs"]
     ph = z.phaseFromZernikes(list(co), N, norm=norm, rot=rot)
     zs = z.zernikeArray(len(co), N, norm=norm, rot=rot)
+    ctx.equal(z.zernikeArray(len(co), N, norm, rot), zs, "zernikeArray(J, N, norm, rot) given positionally differs from the keyword call", nan_ok=True)
+    ctx.equal(z.phaseFromZernikes(list(co), N, norm, rot), ph, "phaseFromZernikes(c, N, norm, rot) given positionally differs from the keyword call", nan_ok=True)
     want_ph = np.tensordot(np.array(co), zs, axes=1)
     if np.all(np.isfinite(zs)):     # p2v-normalised piston is 0/0 on grids without an outside pixel: undefined, not judged
         ctx.close(ph, want_ph, 1e-12, "phaseFromZernikes == sum c_i Z_i", scale=float(np.max(np.abs(want_ph))) or 1.0)
@@ -280,6 +288,28 @@ def gamma_body(ctx, case):
                     ctx.require(abs(abs(mt[i + 1]) - abs(mt[j + 1])) == 1 and nt[j + 1] < nt[i + 1], "gamma[%d,%d] non-zero for (n,m)=(%d,%d)->(%d,%d)" % (i, j, nt[i + 1], mt[i + 1], nt[j + 1], mt[j + 1]))
 
 
+# ------------------------------------------------------------------ many modes on a large grid
+
+def big_phase_cases(tier):
+    return [{"ncoef": 66, "N": 512, "norm": "noll", "rot": 0.0}, {"ncoef": 18, "N": 1024, "norm": "rms", "rot": 0.3}, {"ncoef": 130, "N": 370, "norm": "noll", "rot": 0.0}]
+
+
+def big_phase_body(ctx, case):
+    """More than 2^24 mode samples in one call (an ELT-sized phase map from a hundred coefficients): still that linear
+    combination - every coefficient counts."""
+    z, _ = Z()
+    k, N = case["ncoef"], case["N"]
+    ctx.case(case, nontrivial=True, classes=["samples_%d" % (k * N * N)])
+    rng = gen.np_rng(k * 1000 + N)
+    co = rng.integers(-8, 9, size=k) / 4.0
+    co[co == 0] = 0.25
+    ph = z.phaseFromZernikes(list(co), N, norm=case["norm"], rot=case["rot"])
+    want = np.zeros((N, N))
+    for j in range(1, k + 1):
+        want += co[j - 1] * z.zernikeArray([j], N, norm=case["norm"], rot=case["rot"])[0]
+    ctx.close(ph, want, 1e-11, "phaseFromZernikes of %d coefficients on a %d-pixel grid == sum c_j Z_j accumulated mode by mode" % (k, N), scale=float(np.max(np.abs(want))) or 1.0, name="large phase")
+
+
 def self_test():
     noll.self_test()
 
@@ -346,6 +376,7 @@ def very_high_body(ctx, case):
 
 
 LAWS = [
+    plain_law("many_modes_large_grid", big_phase_cases, big_phase_body, shards={"quick": 3, "thorough": 3}),
     plain_law("high_orders", high_order_cases, high_order_body, shards={"quick": 4, "thorough": 8}),
     plain_law("very_high_orders", very_high_cases, very_high_body, shards={"quick": 4, "thorough": 8}),
     given_law("modes_xl", mode_cases(320, 20), mode_body, {"quick": 0, "thorough": 40}, shards={"quick": 1, "thorough": 16}),
